@@ -94,7 +94,7 @@ def r09_2(ctx: Ctx) -> None:
 def r09_3(ctx: Ctx) -> None:
     f = ctx.prog.func("py7zr", "Worker._extract_single")
     cfg = cfg_of(f.node)
-    loops = [n for n in walk(f.node) if isinstance(n, ast.For) and norm(n.iter) == "files"]
+    loops = [n for n in walk(f.node) if isinstance(n, ast.For) and norm(n.iter) == f.params[2]]
     ctx.need(len(loops) == 1, "member loop of _extract_single not recognised")
     lp = loops[0]
     it = cfg.by_ast[lp]
